@@ -60,3 +60,32 @@ pub proof fn lemma_entry_push(pre: Map<String, Vec<RRType>>, post: Map<String, V
     }
     assert(post[k]@[post[k]@.len() - 1] == t);
 }
+
+// ---- refresh_due_hosts ----
+// `record.any().downcast_ref::<DnsSrv>().map(|srv| srv.host().to_string())`
+#[verifier::external_body]
+pub fn vx_srv_host_string(r: &DnsRecordBox) -> (o: Option<String>)
+    ensures o is Some <==> payload_srv_host(r.payload()) is Some, o is Some ==> o->Some_0@ == payload_srv_host(r.payload())->Some_0,
+{ unimplemented!() }
+impl HashSet<String> {
+    #[verifier::external_body]
+    pub fn extend_set(&mut self, other: HashSet<String>) ensures final(self)@ == old(self)@.union(other@) { unimplemented!() }
+}
+#[verifier::external_body]
+pub fn vx_set_into_vec<K>(s: HashSet<K>) -> (r: Vec<K>)
+    ensures forall|x: K| #[trigger] s@.contains(x) ==> r@.contains(x), forall|j: int| 0 <= j < r@.len() ==> s@.contains(#[trigger] r@[j]),
+{ unimplemented!() }
+// some SRV record among the first n of the list targets host h
+pub open spec fn targets_host(l: Seq<DnsRecordIntf>, n: int, h: Seq<char>) -> bool {
+    exists|i: int| 0 <= i < n && payload_srv_host((#[trigger] l[i]).record.payload()) == Some(h)
+}
+// host h is the target of an SRV record of an instance that an unexpired PTR record of the type points to
+pub open spec fn browsed_host(plist: Seq<DnsRecordIntf>, srv: Map<String, Vec<DnsRecordIntf>>, h: Seq<char>, now: u64) -> bool {
+    exists|x: Seq<char>| #[trigger] listed_live(plist, plist.len() as int, x, now) && targets_host(list_in(srv, x), list_in(srv, x).len() as int, h)
+}
+#[verifier::opaque]
+pub open spec fn unvisited_same_lower(m: Map<String, Vec<DnsRecordIntf>>, m0: Map<String, Vec<DnsRecordIntf>>, hosts: Seq<String>, n: int) -> bool {
+    forall|k: String| #[trigger] m0.contains_key(k) && (forall|j: int| 0 <= j < n ==> lower((#[trigger] hosts[j])@) != k@) ==> m[k] == m0[k]
+}
+// a host name with the same lower-cased spelling as h is in the set
+pub open spec fn reported_host(rd: Set<String>, h: Seq<char>) -> bool { exists|r: String| #[trigger] rd.contains(r) && lower(r@) == lower(h) }
